@@ -204,7 +204,7 @@ def digit_agreement(chk, P):
                 n += 1
                 chk.judge(used == {dl}, "PAIR", "%s:%s:numbering" % (f.name.replace("SimTK::", ""), d["var"]), "%s:%d" % (f.file, d["line"]),
                           "%s (body %s) is computed from quantities of body %s: %s" % (d["var"], dl, sorted(used), sx_str(d["init"])[:60]))
-    chk.judge(n >= 12, "PAIR", "numbering-sites>=12", "", "numbered definitions examined: %d" % n)
+    chk.shape(n >= 12, "PAIR", "numbering-sites>=12", "", "numbered definitions examined: %d" % n)
 
 
 _F = "Simbody/src/Force.cpp"
